@@ -234,11 +234,13 @@ class WireAnalysis:
             out.append({g: False})
         return out
 
-    def lang(self, f, ver, guards, tsub=None, argvals=None):
+    def lang(self, f, ver, guards, tsub=None, argvals=None, expand=True):
         an = Analyzer(self.facts, self.classifier, self.inline)
         env = {"$ver": ver, "$guards": guards, "$tsub": tsub or {}}
         e = an.function(f, env, argvals)
-        acc = expand_regions(canon(finalize(an.accept(e))), self.facts)
+        acc = canon(finalize(an.accept(e)))
+        if expand:
+            acc = expand_regions(acc, self.facts)
         return acc, canon(finalize(an.reject(e))), canon(finalize(e.div)), an
 
     def index(self):
